@@ -63,14 +63,26 @@ func operAddr(o int64) sdk.ValAddress {
 	return sdk.ValAddress(b)
 }
 
-func consAddr(k int64) sdk.ConsAddress {
-	return sdk.ConsAddress(common.Key(int(1000 + k)).PubKey().Address())
+const maxKeys = 32
+
+// key material of the pool, derived once (ed25519 key derivation is expensive)
+var (
+	poolCons [maxKeys]sdk.ConsAddress
+	poolJSON [maxKeys]string
+)
+
+func init() {
+	for k := 0; k < maxKeys; k++ {
+		pk := common.Key(1000 + k).PubKey()
+		poolCons[k] = sdk.ConsAddress(pk.Address())
+		poolJSON[k] = fmt.Sprintf(`{"@type":"/cosmos.crypto.ed25519.PubKey","key":"%s"}`,
+			base64.StdEncoding.EncodeToString(pk.Bytes()))
+	}
 }
 
-func keyJSON(k int64) string {
-	return fmt.Sprintf(`{"@type":"/cosmos.crypto.ed25519.PubKey","key":"%s"}`,
-		base64.StdEncoding.EncodeToString(common.Key(int(1000+k)).PubKey().Bytes()))
-}
+func consAddr(k int64) sdk.ConsAddress { return poolCons[k] }
+
+func keyJSON(k int64) string { return poolJSON[k] }
 
 func classify(r common.Result) int64 {
 	if r.OK() {
@@ -116,6 +128,14 @@ func (d *drv) keyID(a []byte) int64 {
 	return -2
 }
 
+func (d *drv) mustKeyID(a []byte) int64 {
+	id, ok := d.addr2[string(a)]
+	if !ok {
+		panic(fmt.Sprintf("address outside the key pool in the provider store: %x", a))
+	}
+	return id
+}
+
 func cid(c int64) string { return strconv.FormatInt(c, 10) }
 
 func (d *drv) snapshot(res int64) common.T {
@@ -137,23 +157,24 @@ func (d *drv) snapshot(res int64) common.T {
 		assigned := make([]common.T, d.k.NK)
 		optin := make([]common.T, d.k.NK)
 		for k := 0; k < d.k.NK; k++ {
-			ca := providertypes.NewConsumerConsAddress(consAddr(int64(k)))
-			byaddr[k] = int64(-1)
-			if p, found := env.K.GetValidatorByConsumerAddr(env.Ctx, id, ca); found {
-				byaddr[k] = d.keyID(p.ToSdkConsAddr())
-			}
-			rp := env.K.GetProviderAddrFromConsumerAddr(env.Ctx, id, ca)
+			byaddr[k], assigned[k], optin[k] = int64(-1), int64(-1), int64(0)
+			// the function slash / evidence handling uses to find the validator to punish (one keyed read each)
+			rp := env.K.GetProviderAddrFromConsumerAddr(env.Ctx, id, providertypes.NewConsumerConsAddress(consAddr(int64(k))))
 			resolve[k] = d.keyID(rp.ToSdkConsAddr())
-			pa := providertypes.NewProviderConsAddress(consAddr(int64(k)))
-			assigned[k] = int64(-1)
-			if pk, found := env.K.GetValidatorConsumerPubKey(env.Ctx, id, pa); found {
-				a, err := ccvtypes.TMCryptoPublicKeyToConsAddr(pk)
-				if err != nil {
-					panic(err)
-				}
-				assigned[k] = d.keyID(a)
+		}
+		// the three stores are read by prefix iteration (every entry of this consumer, also entries outside the pool)
+		for _, e := range env.K.GetAllValidatorsByConsumerAddr(env.Ctx, &id) {
+			byaddr[d.mustKeyID(e.ConsumerAddr)] = d.mustKeyID(e.ProviderAddr)
+		}
+		for _, e := range env.K.GetAllValidatorConsumerPubKeys(env.Ctx, &id) {
+			a, err := ccvtypes.TMCryptoPublicKeyToConsAddr(*e.ConsumerKey)
+			if err != nil {
+				panic(err)
 			}
-			optin[k] = common.B(env.K.IsOptedIn(env.Ctx, id, pa))
+			assigned[d.mustKeyID(e.ProviderAddr)] = d.mustKeyID(a)
+		}
+		for _, p := range env.K.GetAllOptedIn(env.Ctx, id) {
+			optin[d.mustKeyID(p.ToSdkConsAddr())] = int64(1)
 		}
 		var tp []common.T
 		for _, e := range env.K.GetAllConsumerAddrsToPrune(env.Ctx, id) {
